@@ -250,9 +250,6 @@ func (c *limitCtx) Err() error { return context.Canceled }
 
 func runFp(c *Ctx) {
 	n := 40
-	if c.Tier != "quick" {
-		n = 400
-	}
 	fs := forms()
 	if len(c.Args) > 0 { // replay: "n\tmode\tsrc"
 		fs = nil
@@ -266,21 +263,33 @@ func runFp(c *Ctx) {
 	} else {
 		fs = append(fs, genTailRec(c.Rng, c.N)...)
 	}
+	// the canonical case (replay text, key of KNOWN_FINDINGS) names the smallest loop count at which a
+	// form is measured: every tier measures n = 40 (or the replayed n); the thorough tier adds n = 400
+	// for the forms that do not already grow at 40
+	ns := []int{n}
+	if c.Tier != "quick" && len(c.Args) == 0 {
+		ns = []int{40, 400}
+	}
 	for _, f := range fs {
-		a := measureRun(f, n)
-		b := measureRun(f, 8*n)
-		if a.err != "" || b.err != "" {
-			c.Violation("error\t%s\t%d\t%s\tthe form does not run: %s %s", f.src, n, f.mode, a.err, b.err)
-			continue
+		for _, n := range ns {
+			a := measureRun(f, n)
+			b := measureRun(f, 8*n)
+			if a.err != "" || b.err != "" {
+				c.Violation("error\t%s\t%d\t%s\tthe form does not run: %s %s", f.src, n, f.mode, a.err, b.err)
+				break
+			}
+			// the run must really iterate: the work (polls) grows with n, otherwise the case says nothing
+			if b.polls < 4*a.polls {
+				c.Count("not-iterating:" + f.name)
+				c.Stats["not-iterating:"+f.src] = fmt.Sprint(a.polls, " ", b.polls)
+			}
+			c.Count("form")
+			c.Emit("(fp %s %d %s (a %s) (b %s) (end %s %s) (polls %d %d) (outputs %d %d))", Hexs([]byte(f.src)), n, f.mode,
+				a.pk, b.pk, a.end, b.end, a.polls, b.polls, a.outputs, b.outputs)
+			if b.pk.forks > a.pk.forks+8 || b.pk.stack > a.pk.stack+8 || b.pk.scopes > a.pk.scopes+8 || b.pk.paths > a.pk.paths+8 || b.pk.values > a.pk.values+16 {
+				break // already growing at this n (judged by the model); a larger n adds nothing
+			}
 		}
-		// the run must really iterate: the work (polls) grows with n, otherwise the case says nothing
-		if b.polls < 4*a.polls {
-			c.Count("not-iterating:" + f.name)
-			c.Stats["not-iterating:"+f.src] = fmt.Sprint(a.polls, " ", b.polls)
-		}
-		c.Count("form")
-		c.Emit("(fp %s %d %s (a %s) (b %s) (end %s %s) (polls %d %d) (outputs %d %d))", Hexs([]byte(f.src)), n, f.mode,
-			a.pk, b.pk, a.end, b.end, a.polls, b.polls, a.outputs, b.outputs)
 	}
 }
 
